@@ -54,10 +54,52 @@ def generate(repo, g):
     fn = sig.find('_SignatureMixin.to_string')
     strs = [n.value for n in ast.walk(fn) if isinstance(n, ast.Constant) and isinstance(n.value, str)]
     g.define('sigToStringLiterals', 'List String', lean_list(strs), 'jedi/inference/signature.py:_SignatureMixin.to_string')
-    # bound: params[1:]
-    fn = sig.find('TreeSignature.get_param_names')
-    sl = [u(n) for n in ast.walk(fn) if isinstance(n, ast.Subscript)]
-    g.define('boundSlice', 'List String', lean_list(sl), 'jedi/inference/signature.py:TreeSignature.get_param_names')
+    # bound: `if self.is_bound: return _remove_bound_param(params)` and the helper itself
+    # (a source of another shape is written out as it is: the Gen-tied theorem then fails to build)
+    def bound_returns(dotted):
+        fn = sig.find(dotted)
+        out = []
+        for n in ast.walk(fn):
+            if isinstance(n, ast.If) and u(n.test) == 'self.is_bound':
+                out += [u(r.value) for b in n.body for r in ast.walk(b)
+                        if isinstance(r, ast.Return) and r.value is not None]
+        return out
+    g.define('boundRule', 'List String', lean_list(bound_returns('TreeSignature.get_param_names')),
+             'jedi/inference/signature.py:TreeSignature.get_param_names (returns under `if self.is_bound`)')
+    g.define('abstractBoundRule', 'List String', lean_list(bound_returns('AbstractSignature.get_param_names')),
+             'jedi/inference/signature.py:AbstractSignature.get_param_names (returns under `if self.is_bound`)')
+    try:
+        rbp = sig.find('_remove_bound_param')
+    except TieBroken:
+        rbp = None
+    shape = []
+    if rbp is not None:
+        args = [a.arg for a in rbp.args.args]
+        body = [n for n in rbp.body if not (isinstance(n, ast.Expr) and isinstance(n.value, ast.Constant))]
+        shape = ['(' + ', '.join(args) + ')'] + [
+            ('if ' + u(n.test) + ': ' + '; '.join(u(x) for x in n.body) +
+             (' else: ' + '; '.join(u(x) for x in n.orelse) if n.orelse else ''))
+            if isinstance(n, ast.If) else u(n) for n in body]
+    g.define('removeBoundParam', 'List String', lean_list(shape),
+             'jedi/inference/signature.py:_remove_bound_param (parameters, statements in order)')
+    # forwarding: the guards of process_params / _remove_given_params, the kinds of maybe_*_argument
+    fn = star_args.find('process_params')
+    tests = [u(n.test) for n in ast.walk(fn) if isinstance(n, ast.If)]
+    g.define('processParamsTests', 'List String', lean_list(tests),
+             'jedi/inference/star_args.py:process_params (if tests, ast.walk order)')
+    fn = star_args.find('_remove_given_params')
+    tests = [u(n.test) for n in ast.walk(fn) if isinstance(n, ast.If)]
+    g.define('removeGivenTests', 'List String', lean_list(tests),
+             'jedi/inference/star_args.py:_remove_given_params (if tests in order)')
+    for meth, nm in (('maybe_positional_argument', 'maybePositionalKinds'), ('maybe_keyword_argument', 'maybeKeywordKinds')):
+        fn = names.find('_ParamMixin.' + meth)
+        lists = [n for n in ast.walk(fn) if isinstance(n, ast.List)]
+        apps = [u(n.args[0]) for n in ast.walk(fn) if isinstance(n, ast.Call) and isinstance(n.func, ast.Attribute)
+                and n.func.attr == 'append' and len(n.args) == 1]
+        if len(lists) != 1:
+            raise TieBroken('names.py:%s: expected one list literal' % meth, u(fn))
+        g.define(nm, 'List String', lean_list([u(e) for e in lists[0].elts] + apps),
+                 'jedi/inference/names.py:_ParamMixin.%s (options, stars included)' % meth)
     # calculate_index: the guards
     fn = helpers.find('CallDetails.calculate_index')
     tests = [u(n.test) for n in ast.walk(fn) if isinstance(n, ast.If)]
@@ -73,7 +115,7 @@ def generate(repo, g):
                   (names, 'BaseTreeParamName.get_public_name'), (names, '_ParamMixin._kind_string'),
                   (names, 'TreeNameDefinition.py__doc__'),
                   (sig, '_SignatureMixin.to_string'), (sig, 'TreeSignature.get_param_names'),
-                  (sig, 'TreeSignature.bind'),
+                  (sig, 'TreeSignature.bind'), (sig, 'AbstractSignature.get_param_names'),
                   (helpers, '_iter_arguments'), (helpers, 'CallDetails.calculate_index'),
                   (helpers, 'CallDetails.count_positional_arguments'),
                   (helpers, 'CallDetails.iter_used_keyword_arguments'),
@@ -81,6 +123,10 @@ def generate(repo, g):
                   (classes, 'BaseName.docstring'), (classes, 'BaseName._get_docstring_signature'),
                   (classes, 'Signature.index'), (classes, 'Signature.bracket_start'),
                   (classes, 'BaseSignature.params'),
-                  (star_args, 'process_params'),
+                  (star_args, 'process_params'), (star_args, '_remove_given_params'),
+                  (star_args, '_iter_nodes_for_param'), (star_args, '_goes_to_param_name'),
+                  (names, '_ParamMixin.maybe_positional_argument'), (names, '_ParamMixin.maybe_keyword_argument'),
                   (putils, 'clean_scope_docstring'), (putils, 'safe_literal_eval')]:
         g.fp(s_, d)
+    if rbp is not None:
+        g.fp(sig, '_remove_bound_param')
